@@ -154,6 +154,14 @@ fn run_program(line: &str) -> String {
                     let s = w.lock().unwrap().handles.remove(&n(2));
                     if let Some(s) = s { s.in_scope(|| ()); w.lock().unwrap().handles.insert(n(2), s); }
                 }
+                "isp" => {
+                    // in_scope whose closure unwinds (the panic is caught here): the span is still exited
+                    let s = w.lock().unwrap().handles.remove(&n(2));
+                    if let Some(s) = s {
+                        let _ = std::panic::catch_unwind(std::panic::AssertUnwindSafe(|| s.in_scope(|| -> () { std::panic::panic_any(()) })));
+                        w.lock().unwrap().handles.insert(n(2), s);
+                    }
+                }
                 "rc" => { let mut g = w.lock().unwrap(); if let Some(s) = g.handles.get_mut(&n(2)) { s.record("f", 1u64); } }
                 "ff" => {
                     let g = w.lock().unwrap();
